@@ -1,7 +1,8 @@
 (* C20 -- The client library pairs answers with calls and sends what it was given.
    Statements only.  Model: Model/Client.v (lib.rs TransactionIds, Callbacks, process_incoming_command,
    deliver_*, result conversions; buffer.rs SendBuffer after the fixes of F14 and F15). *)
-From WB Require Import Base.Str Base.Json Model.Codec Model.Client Proofs.ClientFacts.
+From WB Require Import Base.Str Base.Json Model.Key Model.Store Model.Match Model.Entry Model.Core Model.Codec Model.Session Model.Client Spec.MapSpec
+  Proofs.CoreFacts Proofs.ClientFacts Proofs.EndToEnd.
 From Coq Require Import List.
 Import ListNotations.
 Local Open Scope N_scope.
@@ -86,6 +87,98 @@ Print Assumptions C20_latest_value.
 Theorem C20_nothing_else_sent : forall es, Forall (handed es) (snd (brun sb_init es)).
 Proof. exact nothing_else_sent. Qed.
 Print Assumptions C20_nothing_else_sent.
+
+(* ---- "its typed results equal what the server holds": library, session layer and store composed (Proofs/EndToEnd.v) ----
+   [round_trip w c sn call cmd]: the command goes through on_cmd, its message through the session's handler, every
+   message the server puts on this session's wire through on_msg, in order.  [served]: the session is open and no token
+   is required; [Fresh c]: no callback filed under an id not handed out yet (an invariant: C20_fresh_invariant);
+   [no_channels w sn]: this session has no subscription and no waiting acquire (their traffic would share the wire). *)
+
+(* every awaited call that the server answers in the same step -- set, cset, get, cget, pget, delete, pdelete, ls, pls,
+   publish, spub_init, lock, release_lock --: exactly one delivery reaches the application, it is the answer to this
+   call, it carries the one terminal message the protocol assigns to the request, and the callback is used up *)
+Theorem C20_call_end_to_end :
+  forall w c sn s call cmd sl o,
+  served w sn s -> Fresh c -> no_channels w sn -> plain_call cmd = true -> slot_of cmd = Some sl ->
+  let m := snd (fst (on_cmd c call cmd)) in
+  op_of (cid_of sn) m = Some o -> (N.eqb (ss_proto s) 0 && v1_only m)%bool = false ->
+  o_res (snd (step (w_core w) o)) <> RCrash ->
+  let '(w1, c2, ds, v) := round_trip w c sn call cmd in
+  w_core w1 = fst (step (w_core w) o) /\ v = Continue /\
+  exists a, answer m (o_res (snd (step (w_core w) o))) = [a] /\ ds = [DAnswer call a] /\
+            cb_find (next_tid c) (get_slot sl c2) = None.
+Proof. exact call_end_to_end. Qed.
+Print Assumptions C20_call_end_to_end.
+
+(* get: the value the store holds, None where it holds none, the key's own error where the key is ill-formed
+   (also with subscriptions open on the session: a read causes no traffic) *)
+Theorem C20_get_returns_what_the_store_holds :
+  forall w c sn s call k, served w sn s -> Fresh c ->
+  let '(w1, c2, ds, v) := round_trip w c sn call (CGet k) in
+  w_core w1 = w_core w /\ v = Continue /\
+  exists sm, ds = [DAnswer call sm] /\ tid_of_smsg sm = Some (next_tid c) /\
+             result_of (CGet k) sm = get_spec (abs (w_core w)) k /\ cb_find (next_tid c) (state c2) = None.
+Proof. exact get_end_to_end. Qed.
+Print Assumptions C20_get_returns_what_the_store_holds.
+
+Theorem C20_cget_returns_value_and_version :
+  forall w c sn s call k, served w sn s -> ss_proto s = 1%N -> Fresh c -> no_channels w sn ->
+  let '(w1, c2, ds, v) := round_trip w c sn call (CCGet k) in
+  w_core w1 = w_core w /\ v = Continue /\ result_in ds (CCGet k) call = cget_spec (abs (w_core w)) k.
+Proof. exact cget_end_to_end. Qed.
+Print Assumptions C20_cget_returns_value_and_version.
+
+Theorem C20_pget_returns_the_matching_entries :
+  forall w c sn s call pat, served w sn s -> Fresh c -> no_channels w sn -> Inv (w_core w) ->
+  let '(w1, c2, ds, v) := round_trip w c sn call (CPGet pat) in
+  w_core w1 = w_core w /\ v = Continue /\
+  match result_in ds (CPGet pat) call with
+  | CRKvs l => forall k x, In (k, x) l <-> exists q e, k = join slash q /\ x = entry_val e /\ abs (w_core w) q = Some e /\ store_match (kseg_parse pat) q = true
+  | CRErr code => code = E_IllegalMultiWildcard /\ wf_pat (kseg_parse pat) = false
+  | _ => False
+  end.
+Proof. exact pget_end_to_end. Qed.
+Print Assumptions C20_pget_returns_the_matching_entries.
+
+Theorem C20_set_ok_means_stored :
+  forall w c sn s call k x, served w sn s -> Fresh c -> no_channels w sn -> Inv (w_core w) ->
+  let '(w1, c2, ds, v) := round_trip w c sn call (CSet k x) in
+  v = Continue /\
+  match result_in ds (CSet k x) call with
+  | CROk => exists p, parse_segments k = Ok p /\ meq (abs (w_core w1)) (m_set (abs (w_core w)) p (Plain x))
+  | CRErr _ => w_core w1 = w_core w
+  | _ => False
+  end.
+Proof. exact set_end_to_end. Qed.
+Print Assumptions C20_set_ok_means_stored.
+
+Theorem C20_delete_returns_what_it_removed :
+  forall w c sn s call k, served w sn s -> Fresh c -> no_channels w sn -> Inv (w_core w) ->
+  let '(w1, c2, ds, v) := round_trip w c sn call (CDelete k) in
+  v = Continue /\
+  match result_in ds (CDelete k) call with
+  | CRVal x => exists p e, parse_segments k = Ok p /\ abs (w_core w) p = Some e /\ x = entry_val e /\ meq (abs (w_core w1)) (m_del (abs (w_core w)) p)
+  | CRNone | CRErr _ => meq (abs (w_core w1)) (abs (w_core w))
+  | _ => False
+  end.
+Proof. exact delete_end_to_end. Qed.
+Print Assumptions C20_delete_returns_what_it_removed.
+
+Theorem C20_fresh_invariant :
+  Fresh cinit /\
+  (forall c m, Fresh c -> Fresh (fst (on_msg c m))) /\
+  (forall c call cmd, Fresh c -> (key_tid c cmd < next_tid c + 1)%N -> Fresh (fst (fst (on_cmd c call cmd)))).
+Proof. split; [exact Fresh_init|]. split; [exact Fresh_msg|exact Fresh_cmd]. Qed.
+Print Assumptions C20_fresh_invariant.
+
+Example C20_end_to_end_nonvacuous :
+  let w0 := fst (open_session (world_init false) 0%N) in
+  let '(w1, c1, d1, _) := round_trip w0 cinit 0%N 1%N (CSet [97]%N (JNum [49]%N)) in
+  let '(w2, c2, d2, _) := round_trip w1 c1 0%N 2%N (CGet [97]%N) in
+  let '(w3, c3, d3, _) := round_trip w2 c2 0%N 3%N (CCGet [98]%N) in
+  result_in d1 (CSet [97]%N (JNum [49]%N)) 1%N = CROk /\ result_in d2 (CGet [97]%N) 2%N = CRVal (JNum [49]%N) /\ result_in d3 (CCGet [98]%N) 3%N = CRNone /\
+  next_tid c3 = 4%N.
+Proof. exact round_trip_demo. Qed.
 
 (* a subscription made through the ticket API files no callback; its fire-and-forget unsubscribe is sent all the same *)
 Example C20_unsubscribe_of_ticket_subscription :
